@@ -158,6 +158,14 @@ pub fn observe_root(start: &[u8], path: &Path) -> String {
     format!("{}={}", hex(start), out.join("/"))
 }
 
+/// Wire form of a directory starting point recorded WITHOUT its contents (for runs with
+/// `-maxdepth 0` on directories that must not be walked, such as `/`).
+pub fn observe_root_shallow(start: &[u8], path: &Path) -> String {
+    let lm = std::fs::symlink_metadata(path).expect("lstat of the starting point");
+    assert!(lm.is_dir());
+    format!("{}=d.-.01.{}.0", hex(start), attr_of(path, &lm, 'd', 'd'))
+}
+
 pub struct GenParams {
     pub max_depth: usize,
     pub max_width: usize,
